@@ -499,7 +499,13 @@ class ThreadedQueue(Queue):
                     now = time()
 
                 if item is PLEASE_STOP:
-                    push_to_queue()
+                    try:
+                        push_to_queue()
+                    except Exception:
+                        # KEEP THE STOP REQUEST, SO THE FLUSH IS RETRIED AND stop() STILL RETURNS
+                        with self.lock:
+                            self.queue.appendleft(PLEASE_STOP)
+                        raise
                     please_stop.go()
                     break
                 elif isinstance(item, types.FunctionType):
